@@ -1,42 +1,140 @@
-"""Per-property metadata: harness module, claimed level, notes (feeds MANIFEST.json)."""
+"""Per-property metadata: harness module, claimed level, notes (feeds MANIFEST.json via vlib/mkmanifest.py)."""
 
-NOTES = ("All checks: ./run check <ID> --tier quick|thorough.  Each check copies /repo's working tree into "
-         "scratch builds (pure-Python and Cython), runs CrossHair/z3 over harness conditions with symbolic "
-         "values, priorities (= flush schedule), fault selectors and shape selectors, replays every "
-         "counterexample concretely before reporting, and writes evidence/<ID>.json.  Exit 0 ok, 1 violation, "
-         "3 harness error (non-reproducing counterexample, nondeterminism, vacuous condition).")
+NOTES = ("All checks: ./run check <ID> --tier quick|thorough.  Each check copies /repo's working tree into scratch "
+         "builds (pure-Python and Cython-compiled; /repo's own .so files are never used), runs CrossHair/z3 over "
+         "harness conditions whose parameters - values, batch priorities (= flush schedule), fault selectors, shape "
+         "selectors, operation codes, option bits, clock readings, thread hand-over bits - are symbolic, replays "
+         "every counterexample concretely on fresh builds before reporting, applies known_findings.json, and "
+         "writes evidence/<ID>.json.  Exit 0 = held on everything explored, 1 = VIOLATION (replayed), 3 = harness "
+         "error (non-reproducing counterexample, nondeterminism, vacuous condition); budget exhaustion is reported "
+         "as 'inconclusive' in the evidence, never as success-for-all.  selftest/seedtool.py applies the seeded "
+         "changes under seeded/ to /repo, runs checks and undoes them.")
 
 _BOUNDED = ("Bounded: the verdict covers every value of the symbolic parameters inside the ranges listed in the "
-            "evidence file ('conditions'), on the listed program families; programs, histories and schedules "
-            "outside them are not covered.  Trusted: CPython 3.12, Cython's translation (the compiled build is "
-            "executed, not modelled), CrossHair's int/bool proxies, z3, and the sequential reference interpreter.")
+            "evidence file (coverage.conditions[*].bounds), on the listed program/history families; programs, "
+            "histories, option subsets and schedules outside them are not covered.  Trusted: CPython 3.12, "
+            "Cython's translation (the compiled build is executed, not modelled), CrossHair's int/bool proxies "
+            "(harness and asynq see them through the object protocol; bytecode tracing is off, see DESIGN.md 3.2), "
+            "z3 5.1, and the reference interpreter / reference state machines in /verif/harness.")
+
+_T = "bounded symbolic execution of the real code with CrossHair + z3 (symbolic values, priorities, selectors)"
+
+
+def _p(module, text, note=None, technique=_T, **kw):
+    d = {"module": module, "level": "other", "level_text": text, "level_note": note or _BOUNDED, "technique": technique,
+         "design_ref": "DESIGN.md section 5"}
+    d.update(kw)
+    return d
+
 
 PROPS = {
-    "C01": {
-        "module": "harness.c01",
-        "level_text": "Bounded symbolic execution of the real scheduler/task/decorator code on program families "
-                      "(trees, step sequences, DAGs, nested yield structures, re-entry, caught faults); task and "
-                      "item values and batch priorities are symbolic, so z3 decides every flush order and the "
-                      "equality with a sequential reference interpreter for all values in the bound.",
-        "level_note": _BOUNDED,
-    },
-    "C02": {"module": "harness.c02", "level_text": "TODO", "level_note": _BOUNDED},
-    "C03": {"module": "harness.c03", "level_text": "TODO", "level_note": _BOUNDED},
-    "C04": {"module": "harness.c04", "level_text": "TODO", "level_note": _BOUNDED},
-    "C05": {"module": "harness.c05", "level_text": "TODO", "level_note": _BOUNDED},
-    "C08": {"module": "harness.c08", "level_text": "TODO", "level_note": _BOUNDED},
-    "C06": {"module": "harness.c06", "level_text": "TODO", "level_note": _BOUNDED},
-    "C07": {"module": "harness.c07", "level_text": "TODO", "level_note": _BOUNDED},
-    "C10": {"module": "harness.c10", "level_text": "TODO", "level_note": _BOUNDED},
-    "C09": {"module": "harness.c09", "level_text": "TODO", "level_note": _BOUNDED},
-    "C11": {"module": "harness.c11", "level_text": "TODO", "level_note": _BOUNDED},
-    "C12": {"module": "harness.c12", "level_text": "TODO", "level_note": _BOUNDED},
-    "C13": {"module": "harness.c13", "level_text": "TODO", "level_note": _BOUNDED},
-    "C14": {"module": "harness.c14", "level_text": "TODO", "level_note": _BOUNDED},
-    "C15": {"module": "harness.c15", "level_text": "TODO", "level_note": _BOUNDED},
-    "C16": {"module": "harness.c16", "level_text": "TODO", "level_note": _BOUNDED},
-    "C17": {"module": "harness.c17", "level_text": "TODO", "level_note": _BOUNDED},
-    "C18": {"module": "harness.c18", "level_text": "TODO", "level_note": _BOUNDED},
-    "C19": {"module": "harness.c19", "level_text": "TODO", "level_note": _BOUNDED},
-    "C20": {"module": "harness.c20", "level_text": "TODO", "level_note": _BOUNDED},
+    "C01": _p("harness.c01",
+              "Real scheduler/task/decorator code run symbolically on program families (trees, mixed step sequences, "
+              "DAGs, every yield-structure template x slot kind, re-entry, cancellation, caught faults, four calling "
+              "conventions, return/result()); item values and batch priorities are symbolic, so z3 decides every "
+              "flush order (ties through a hash-order selector) and the equality of the outcome and of every value "
+              "received at a yield with a sequential reference interpreter."),
+    "C02": _p("harness.c02",
+              "Fault site, fault kind (task raises, item error, item left unset, flush raises, ErrorFuture, failing "
+              "lazy Future, non-future object, cancelled batch) and guard mode at two levels are selectors; the "
+              "oracle checks exception identity with the failing future's error(), completion of all siblings at "
+              "delivery, first-in-structure-order, continuation after a catch, and the root outcome against the "
+              "reference."),
+    "C03": _p("harness.c03",
+              "Monitors inside real task bodies: every yielded future computed at each resumption, no implicit "
+              "flush forced by a premature resumption, tasks yielded together start in written order, orphans never "
+              "start, every awaited task computed exactly once, watchdog for lost wake-ups; chains of 1500 (C) / "
+              "1100 (P) tasks in quick and 20000 on both builds in thorough."),
+    "C04": _p("harness.c04",
+              "At every scheduler flush event the harness walks the awaited computation: every uncompleted task has "
+              "started and waits, directly or transitively, on an unflushed item; no batch is flushed outside the "
+              "scheduler's flush step; single-kind programs perform exactly critical-path many flushes (reference "
+              "round count)."),
+    "C05": _p("harness.c05",
+              "Per batch identity at most one flush-body execution; never an empty/flushed/cancelled batch; never a "
+              "flush after the innermost awaited computation completed; in yield-only families the flushed batch's "
+              "symbolic priority is maximal among pending batches (tuple, overridden int and default priorities); "
+              "items completed exactly once by their flush; before/after events bracket.  One genuine defect is "
+              "recorded in known_findings.json (re-entrant double flush)."),
+    "C06": _p("harness.c06",
+              "Recording contexts at symbolic block positions/kinds/exit modes in two concurrently pending tasks "
+              "(plus child, grandchild, failing and synchronously called tasks inside the block): strict "
+              "resume/pause alternation, active at every step of the owner and of tasks only it awaits, paused at "
+              "foreign steps and flushes; NonAsyncContext fails the task iff the reference says it must be "
+              "suspended inside the block."),
+    "C07": _p("harness.c07",
+              "Scoped-value / attribute overrides with symbolic override values in 2-4 concurrently pending tasks, "
+              "nested overrides of the same target, three task levels: every read equals the reference's "
+              "dynamically scoped value, resume/pause events are well bracketed thread-wide, targets restored "
+              "after success and failure."),
+    "C08": _p("harness.c08",
+              "Histories [computation, canary] (thorough: three long) on one scheduler without reset: faulty "
+              "programs, contexts whose k-th resume/pause raises, MAX_TASK_STACK_SIZE RuntimeError with pending "
+              "batches; get_active_task() checked at every step, after nested calls, after waiting for tasks "
+              "created elsewhere, and after return; scheduler stack empty; the canary behaves as on a fresh "
+              "scheduler."),
+    "C09": _p("harness.c09",
+              "14 decorator kinds x 6 bindings x 4 argument spellings with symbolic arguments: every applicable "
+              "calling convention returns what the undecorated body returns for the expected receiver, sync_fn is "
+              "used for the synchronous call, classification helpers agree with how the callable can be called."),
+    "C10": _p("harness.c10",
+              "Operation-code vectors (value, error, call, is_computed, set_value, set_error, reset_unsafe, "
+              "subscribe good/raising) of length 3-5 on 8 future kinds against an explicit reference state machine "
+              "including notification log and provider-run counter; both builds."),
+    "C11": _p("harness.c11",
+              "Operation-code vectors of length 3-5 over add/flush/cancel/value/error/queries/str with 8 flush-body "
+              "plans on BatchBase subclasses and DebugBatch against a reference lifecycle machine (once-only "
+              "transitions, item outcomes, announcement order, active-batch switch before the flush body)."),
+    "C12": _p("harness.c12",
+              "Two (thorough: three) callers inside a real computation with symbolic callee kind, spelling, "
+              "arguments, delay and dirty(), symbolic priorities: identity of returned tasks equals the reference "
+              "in-flight map evaluated at the call moment, body-run counter per key, shared result objects, re-run "
+              "after completion, empty table at the end."),
+    "C13": _p("harness.c13",
+              "Call histories against reference caches: alru_cache (LRU order, capacity, key_fn, spellings, raising "
+              "bodies, methods), acached_per_instance (independent instances, cache vanishes with the instance), "
+              "alazy_constant under a stub clock returning symbolic non-decreasing readings (expiry required beyond "
+              "ttl, forbidden before, free at equality)."),
+    "C14": _p("harness.c14",
+              "Each helper against its built-in on symbolic elements: lists/tuples/one-shot iterators of length "
+              "<=3-4, unorderable payloads with equal keys, reverse, both call forms, blocking and immediate keys "
+              "(one flush per helper call), bad-input exception types, aretry for all (k, max_tries)."),
+    "C15": _p("harness.c15",
+              "Batch-free programs run through fn(args) and through fn.asyncio(args) on a real event loop and "
+              "compared with the sequential reference: structure templates x slot kinds x guards x entry "
+              "(function/method/async_proxy/explicit asyncio_fn) x result(); all awaitables done at failure "
+              "delivery; mode flag off before/after; synchronous call inside raises RuntimeError."),
+    "C16": _p("harness.c16",
+              "BOUNDED FORM of the property: two real threads whose execution is sequentialised at harness-visible "
+              "points (task steps, flush events); 8-11 symbolic bits choose where control is handed over; each "
+              "thread's outcome, batch compositions, context events, dedup counts and profiler buffer equal its "
+              "run alone.  True pre-emption between bytecodes, >2 threads and OS schedules are NOT covered.",
+              note=_BOUNDED + "  The second thread runs concrete values (CrossHair state is per thread)."),
+    "C17": _p("harness.c17",
+              "Generator bodies as vectors of <=4-5 codes (await item/const/task, Value, Value(None)) with "
+              "symbolic values: list_of_generator, take_first(n) for all n incl. 0 followed by take_first(n2), "
+              "consumption counter, documented manual iteration with early-advance RuntimeError, exhausted "
+              "generator keeps raising StopIteration."),
+    "C18": _p("harness.c18",
+              "filter_traceback against an independent re-implementation over an alphabet built from the token "
+              "lists read out of the current debug.py (truncated/corrupted runs, substring tokens, all sequences of "
+              "<=5-7 lines over a 6-line alphabet); glued tracebacks and format_asynq_stack for depth x raise "
+              "position x re-raise position on both builds; str/repr/dump totality over 31 object states and "
+              "mid-run objects; format_error totality."),
+    "C19": _p("harness.c19",
+              "5 target kinds x 6 replacement kinds x 5 activation styles x exit by exception x nested/sequential "
+              "second patch, with symbolic argument and return value: the four conventions reach the replacement "
+              "and agree, the original object is back afterwards."),
+    "C20": _p("harness.c20",
+              "(a) every path runs one of 12 program skeletons with default options and again with a symbolic "
+              "option subset (size <=2 of 19, or all on; time-based dumps forced) and compares outcome, flush "
+              "compositions, scheduler events, context events, reads, scheduler hygiene.  (b) every store into a "
+              "C-typed numeric slot of the .pxd files is translated from the current source into an SMT-LIB range "
+              "query under a stated clock contract, decided by z3 4.8, z3 5.1 and cvc5; sat models are replayed on "
+              "the compiled build with a stub clock.",
+              technique="bounded symbolic execution (CrossHair + z3) + AST/.pxd -> SMT-LIB range queries on three solvers",
+              custom="harness.c20_custom",
+              note=_BOUNDED + "  Option subsets larger than two (other than all-on) are outside the claim; clock "
+                              "contract: positive non-decreasing microsecond readings, <= 24 h per profiled step, "
+                              "<= 10^4 updates per accumulator."),
 }
